@@ -42,6 +42,8 @@ void run_sym(const Desc& d)
     cx.PB = CMatL::Identity(n, n);
     cx.OP = cx.PA;
     cx.finish();
+    if (d.i("c04") && sp.spec.size())
+        set_prescribed(cx, sp.spec);
     const Eigen::Index nev = (Eigen::Index) d.i("nev"), ncv = (Eigen::Index) d.i("ncv");
     OpStats st;
     TraceSink sink;
@@ -95,6 +97,8 @@ void run_symsh(const Desc& d)
     cx.condfac = S.norm() * cx.OP.norm();
     cx.normS = S.norm();
     cx.finish();
+    if (d.i("c04") && sp.spec.size())
+        set_prescribed(cx, sp.spec);
     const Eigen::Index nev = (Eigen::Index) d.i("nev"), ncv = (Eigen::Index) d.i("ncv");
     OpStats st;
     TraceSink sink;
@@ -145,6 +149,8 @@ void run_herm(const Desc& d)
     cx.PB = CMatL::Identity(n, n);
     cx.OP = cx.PA;
     cx.finish();
+    if (d.i("c04") && spec.size())
+        set_prescribed(cx, spec);
     const Eigen::Index nev = (Eigen::Index) d.i("nev"), ncv = (Eigen::Index) d.i("ncv");
     OpStats st;
     TraceSink sink;
